@@ -38,7 +38,15 @@ def check(case, rec):
     from nptdms import TdmsFile
     import io
     fs = case
-    data, _idx, _lay = encode_file(fs)
+    if 'picks' in case:
+        # the same content in a compressed physical encoding (reused / omitted indexes, metadata-less segments; see C02)
+        from vf import plans as P
+        fs = case['fs']
+        phys, _plans = P.encode_with_plans(fs, lambda i, alts: P.nth_plan(alts, case['picks'][i]))
+        data, _idx, _lay = encode_file(phys)
+        rec.label('compressed_encoding', *S.spec_classes(phys))
+    else:
+        data, _idx, _lay = encode_file(fs)
     ex = expected_content(fs)
     rec.nontrivial(_nontrivial(fs))
     rec.label(*S.spec_classes(fs))
@@ -79,6 +87,11 @@ def _short_read_files(draw):
     return dict(fs, short_reads=draw(st.integers(1, 24)))
 
 
+def _compressed():
+    from props.C02 import history
+    return history(max_segments=6, max_channels=4)
+
+
 def jobs(tier):
     if tier == 'quick':
         return [
@@ -86,6 +99,8 @@ def jobs(tier):
             Job('short_read_streams', 'hyp', _short_read_files, n=1000),
             Job('extreme_ts', 'hyp', _extreme_ts, n=500),
             Job('long_files', 'hyp', _long_file, n=48),
+            Job('compressed_encodings', 'hyp', _compressed, n=1500,
+                note='C02 histories in a randomly chosen physical encoding (inherited indexes, metadata-less segments)'),
         ]
     return [
         Job('files', 'hyp', lambda: S.file_spec(max_segments=6), n=300000),
@@ -93,4 +108,5 @@ def jobs(tier):
         Job('extreme_ts', 'hyp', _extreme_ts, n=20000),
         Job('big_files', 'hyp', lambda: S.file_spec(max_segments=12, max_n=300, max_chunks=4, str_max=12), n=40000),
         Job('long_files', 'hyp', _long_file, n=2000),
+        Job('compressed_encodings', 'hyp', _compressed, n=40000),
     ]
